@@ -1331,3 +1331,40 @@ theorem predecessors_spec (prev : List Evd) :
   · exact wellGrouped_createReferences _ (h2 (by simp)) (h3 (by intro x hx; simp at hx))
 
 end HdVerif.SREvidenceLemmas
+
+namespace HdVerif.SREvidenceLemmas
+open HdVerif HdVerif.SREvidence
+
+theorem dedup_sub {α} [DecidableEq α] : ∀ (l seen : List α) (x : α), x ∈ dedup l seen → x ∈ l ∧ x ∉ seen
+  | [], _, _, h => by simp [dedup] at h
+  | y :: ys, seen, x, h => by
+    by_cases hy : y ∈ seen
+    · simp only [dedup, hy, if_true] at h
+      have := dedup_sub ys seen x h
+      exact ⟨by simp [this.1], this.2⟩
+    · simp only [dedup, hy, if_false, List.mem_cons] at h
+      rcases h with h | h
+      · subst h; exact ⟨by simp, hy⟩
+      · have := dedup_sub ys (seen ++ [y]) x h
+        exact ⟨by simp [this.1], fun hc => this.2 (by simp [hc])⟩
+
+theorem dedup_nodup {α} [DecidableEq α] : ∀ (l seen : List α), (dedup l seen).Nodup
+  | [], _ => by simp [dedup]
+  | y :: ys, seen => by
+    by_cases hy : y ∈ seen
+    · simp only [dedup, hy, if_true]; exact dedup_nodup ys seen
+    · simp only [dedup, hy, if_false, List.nodup_cons]
+      exact ⟨fun hc => (dedup_sub ys (seen ++ [y]) y hc).2 (by simp), dedup_nodup ys _⟩
+
+/-- order-preserving deduplication keeps exactly the elements, once each -/
+theorem dedup_spec {α} [DecidableEq α] (l : List α) : (dedup l []).Nodup ∧ ∀ x, x ∈ dedup l [] ↔ x ∈ l := by
+  refine ⟨dedup_nodup l [], fun x => ⟨fun h => (dedup_sub l [] x h).1, fun h => ?_⟩⟩
+  rcases dedup_mem l [] x h with h' | h'
+  · simp at h'
+  · exact h'
+
+theorem pairs_eq_flatMap : ∀ g : Groups, g.flatMap (fun st => st.2.map (fun se => (st.1, se.1))) = pairs g
+  | [] => rfl
+  | (st, ss) :: rest => by simp [pairs, pairs_eq_flatMap rest]
+
+end HdVerif.SREvidenceLemmas
